@@ -1924,7 +1924,8 @@ func scanRescaleTarget(c *core.Ctx) []ob {
 		if fd.Type.Params != nil {
 			for _, fl := range fd.Type.Params.List {
 				for _, nm := range fl.Names {
-					if isScale(info.TypeOf(nm)) {
+					// the scale to reach: `scale` / `targetScale`, not any scale-valued argument (a ratio, a difference)
+					if low := strings.ToLower(nm.Name); isScale(info.TypeOf(nm)) && (low == "scale" || strings.HasPrefix(low, "target")) {
 						target = nm.Name
 					}
 				}
